@@ -463,11 +463,13 @@ Section Sound.
         destruct (H1 eq_refl) as [r' [Hk Hi']]. exists r'. split; auto. eapply incl_tran; eauto.
       - intros o a' Ho Hin. destruct (contN_in _ _ _ _ _ Hbind Hin) as [_ H2]. apply Hi; auto. }
     inversion Hc; subst; simpl in Ha.
-    - (* iferr skip *)
+    - (* iferr else *)
       destruct (a_ph a).
-      + eapply SKIP; eauto. apply incl_refl.
+      + destruct (ai body a) as [ob|] eqn:Eb; simpl in Ha; try discriminate.
+        exists ob. split; [reflexivity|]. eapply TAKE; eauto. apply incl_refl.
       + apply join_l in Ha. destruct Ha as [u [v [Hu [Hv Hr]]]]. subst os.
-        eapply SKIP; eauto. apply incl_appr, incl_refl.
+        destruct (ai body a) as [ob|] eqn:Eb; simpl in Hv; try discriminate.
+        exists ob. split; [reflexivity|]. eapply TAKE; eauto. apply incl_appr, incl_refl.
     - (* iferr take *)
       destruct (a_ph a).
       + destruct Hp. congruence.
@@ -1146,7 +1148,7 @@ Ltac bs_step :=
   | |- bsl _ _ _ PBreak _ _ _ _ => eapply B_break
   | |- bsl _ _ _ PReturn _ _ _ _ => eapply B_return
   | |- bsl _ _ _ (PAtom _ _) _ _ _ _ => eapply B_atomic; [econstructor; reflexivity | ]
-  | |- bsl _ _ _ (PIfErr _ _) _ _ _ _ => eapply B_cond_n; [eapply C_iferr_skip | eapply B_done | ]
+  | |- bsl _ _ _ (PIfErr _ _ _) _ _ _ _ => eapply B_cond_n; [eapply C_iferr_else | | ]
   | |- bsl _ _ _ (PIfNL _ _) _ _ _ _ =>
       first [ eapply B_cond_n; [eapply C_nl_take; simpl; lia | | ]
             | eapply B_cond_n; [eapply C_nl_skip; reflexivity | eapply B_done | ] ]
@@ -1178,18 +1180,18 @@ Open Scope string_scope.
 
 (* shaped like muxer.go: rotateSegments locks around rotateSegmentsInner *)
 Definition ex_inner : prog :=
-  AMut KSeg WLeading ;; PIfErr PReturn
-    (PFor (PIfNL (AMut KSeg WCur ;; PIfErr PReturn
+  AMut KSeg WLeading ;; PIfErr PReturn PDone
+    (PFor (PIfNL (AMut KSeg WCur ;; PIfErr PReturn PDone
                     (AWrite "targetDuration" WCur ;; AWrite "partTargetDuration" WCur ;; PDone)) PDone)
           PReturn).
 Definition ex_outer : prog :=
-  ALock ;; PCall "inner" (AUnlock ;; ANote "hook" ;; PIfErr PReturn (ANote "Broadcast" ;; PReturn)).
+  ALock ;; PCall "inner" (AUnlock ;; ANote "hook" ;; PIfErr PReturn PDone (ANote "Broadcast" ;; PReturn)).
 Definition ex_reader : prog :=
   PFn "lit" (ALock ;; ADeferUnlock ;;
              PLoop (PBranch PReturn PDone (PBranch PBreak PDone (AWait ;; PDone))) 
-                   (ARead "generateMediaPlaylist" WSelf ;; AFallible "generateMediaPlaylist" ;; PIfErr PReturn PReturn))
+                   (ARead "generateMediaPlaylist" WSelf ;; AFallible "generateMediaPlaylist" ;; PIfErr PReturn PDone PReturn))
       PReturn.
-Definition ex_mut : prog := AFallible "finalize" ;; PIfErr PReturn PReturn.
+Definition ex_mut : prog := AFallible "finalize" ;; PIfErr PReturn PDone PReturn.
 
 Definition ex_ok : skeleton :=
   {| sk_fns := [("inner", ex_inner); ("outer", ex_outer); ("reader", ex_reader); ("mut", ex_mut)];
@@ -1200,12 +1202,12 @@ Proof. vm_compute. reflexivity. Qed.
 
 (* the same with one critical section per stream *)
 Definition ex_inner_split : prog :=
-  ALock ;; AMut KSeg WLeading ;; AUnlock ;; PIfErr PReturn
+  ALock ;; AMut KSeg WLeading ;; AUnlock ;; PIfErr PReturn PDone
     (PFor (PIfNL (ALock ;; AMut KSeg WCur ;; AWrite "targetDuration" WCur ;; AWrite "partTargetDuration" WCur ;;
-                  AUnlock ;; PIfErr PReturn PDone) PDone)
+                  AUnlock ;; PIfErr PReturn PDone PDone) PDone)
           PReturn).
 Definition ex_outer_split : prog :=
-  PCall "inner" (ANote "hook" ;; PIfErr PReturn (ANote "Broadcast" ;; PReturn)).
+  PCall "inner" (ANote "hook" ;; PIfErr PReturn PDone (ANote "Broadcast" ;; PReturn)).
 Definition ex_reader_simple : prog :=
   ALock ;; ADeferUnlock ;; ARead "generateMediaPlaylist" WSelf ;; PReturn.
 
@@ -1286,7 +1288,7 @@ Proof.
       * eapply B_cond_n; [eapply C_br_r|eapply B_done|].
         eapply B_cond_x; [eapply C_br_l|eapply B_break|discriminate].
       * eapply B_atomic; [econstructor|]. eapply B_atomic; [eapply A_fallible_ok|].
-        eapply B_cond_n; [eapply C_iferr_skip|eapply B_done|]. eapply B_return.
+        eapply B_cond_n; [eapply C_iferr_else|eapply B_done|]. eapply B_return.
     + reflexivity.
 Qed.
 
